@@ -37,6 +37,9 @@ func DecodeStruct(b []byte) (dataSize int, size int, err error) {
 		return
 	}
 	size += n + int(dataSize_)
+	if size > len(b) {
+		return 0, 0, errors.New("decode struct: invalid data size")
+	}
 
 	return int(dataSize_), size, nil
 }
